@@ -6,6 +6,11 @@ ALL = ["C%02d" % i for i in range(1, 21)]
 
 # id -> dict(level, text, note, technique, design_ref, engine)
 CHECKS = {
+ "C17": dict(level="exploration", engine="seqx",
+   text="Structured request alphabet for the 39 scalar-parameter models (parameters none/all/each alone/all+unknown/reversed x inputs all/each missing/all missing/each longer/each shorter/extra/reversed x T x splitOutputs) compared with a direct one-cell run incl. log lines and non-finite encoding; all byte strings of length <=3 over a 15-character JSON alphabet and every single-byte deletion/substitution/truncation of three valid requests (no panic, exactly one JSON document, a description when nothing ran); JsonSafeArray over every depth-1 view of three float64 roots with NaN/Inf planted x every shiftDim.",
+   note="Requests whose parameters make the direct run itself crash in the model kernel are outside the statement and skipped (determined in fresh processes, counted). Dimensioned models cannot be configured through the request format.",
+   technique="bounded-exhaustive enumeration of a request alphabet / all short byte strings / all single-byte edits, differential oracle (direct run)",
+   design_ref="2/C17"),
  "C01": dict(level="model_checking", engine="seqx",
    text="Explicit-state BFS over all array view states reachable by chains of Slice(loc,dims,step) from roots [7],[3,4],[2,3,4],[2,2,2,3] (thorough also [10],[4,5],[3,3,3]), for 8 element types and both back-ends, states deduplicated by the implementation's private fields; the search runs to a FIXPOINT (the frontier empties), so every reachable view of these roots is covered. In every state every element is read through every view of the chain and every addressable write (Set, SetN, Apply, Apply1, ApplySlice with contiguous/stepped/row-gapped sources, CopyFrom; write pairs in thorough) is applied on the real arrays and the whole storage, guard zones and all views are compared with an index-list reference model.",
    note="Reference model = flat store + explicit offset lists, trusted. Root shapes and step values {nil,1,2,3} as stated.",
